@@ -132,6 +132,9 @@ class LoopCtx(object):
             self.eng.oblige(self.st, "%s/%s" % (self.label, name), closure(k), kind="invariant")
         else:
             self.st.assume_all_k(closure)
+            if smt.QUANT["on"]:
+                kq = z3.Int("inv_k")
+                self.st.assume(z3.ForAll([kq], closure(kq)))
 
     def num(self, name, term, isint=False):
         self.covered.add(name)
